@@ -196,6 +196,27 @@ pub fn marker_inputs() -> Vec<Input>
 			}
 		}
 	}
+	// chains of one binary operator with the mismatch at the second or the third operator: the
+	// location of every operator of a chain is taken separately by the parser
+	for op in ["+", "-", "*", "/", "%", "|", "&", "^"]
+	{
+		for (which, stmt) in [
+			("second", format!("var x: u8 = a {op} b {op} wide;")),
+			("third", format!("var x: u8 = a {op} b {op} a {op} wide;")),
+			("second, on the next line", format!("var x: u8 = a {op} b\n\t\t{op} wide;")),
+		]
+		{
+			for tail in ["\treturn: 0\n}\n", "\treturn: 0 }"]
+			{
+				let program = format!("{STMT_HEAD}\tvar a: u8 = 1;\n\tvar b: u8 = 2;\n\tvar wide: u16 = 3;\n\t{stmt}\n{tail}");
+				out.push(Input {
+					class: format!("marker:mismatched operand at the {which} operator of a chain"),
+					files: vec![("m.pn".to_string(), program)],
+					marker: Some((vec![551], op.to_string(), None)),
+				});
+			}
+		}
+	}
 	// the nesting limit of address markers
 	{
 		let many = format!("{}a", "&".repeat(128));
